@@ -542,6 +542,11 @@ func gateII(p *propDef, seed uint64) {
 			}
 			q2, _ := json.Marshal(map[string]interface{}{"op": it.op, "clock": it.clk})
 			b, err := pipe(worker, q2, "oracle")
+			if err == nil && strings.HasPrefix(b, "\x01STEPS=") {
+				if i := strings.Index(b[1:], "\x01"); i > 0 {
+					b = b[i+2:]
+				}
+			}
 			if err == nil && strings.HasPrefix(b, "\x00VIOLATION") {
 				a, b = "skip", "skip"
 			}
